@@ -61,6 +61,14 @@ func History(g *G, nprog, steps int) []Program {
 			case k < 96:
 				g.Emit(M{"op": "New", "z": z})
 			case k < 97:
+				if g.Bool() {
+					// text input into a register with a history: literals that are rejected after part of them was read
+					// (the receiver must stay a valid Decimal), and accepted ones
+					lit := g.PickS("1__2", "1_", ".", "12e", "0.000123e+", "1.5x", "0x", "1e99999999999", "12345678901234567890123456789012345678901e-", "7.25",
+						"-0.000125e3", "+Inf", "0b1.1p-3", "1_000.5", "9999999999999999999999999999999999999995")
+					g.Emit(M{"op": g.PickS("Parse", "SetString", "UnmarshalText"), "z": z, "s": lit, "base": 0})
+					break
+				}
 				g.Emit(M{"op": g.PickS("Rat", "Int", "Float64", "Int64", "Text"), "x": x, "into": "", "fmt": "g", "prec": -1})
 			case k < 98:
 				g.Emit(M{"op": "Cmp", "x": x, "y": y})
